@@ -143,13 +143,20 @@ def run_schema(schema, tier, seed=0):
     if schema.get('db_filter'):
       from . import lgen
       dbf = lgen.DB_FILTERS[schema['db_filter']]
+    attaches = any('ATTACH' in st for (pre_, _m) in compiled.values() for st in pre_)
     for db, exhaustive in databases(arities, domain, max_rows, schema.get('domains'), cap, seed):
       res['exhaustive'] = res['exhaustive'] and exhaustive
       if dbf is not None and not dbf(db):
         continue
-      load_tables(con, db, arities, schema.get('colnames'))
+      if not attaches:
+        load_tables(con, db, arities, schema.get('colnames'))
       for p, spec in schema['spec'].items():
         pre, main = compiled[p]
+        if attaches:
+          # the preamble attaches a database: one fresh connection per run, as `logica.py run` does
+          con.close()
+          con = connect()
+          load_tables(con, db, arities, schema.get('colnames'))
         expected = spec(db)
         try:
           rows, cols = execute(con, pre, main)
